@@ -82,3 +82,17 @@ Example C10_valid_message_is_passed :
   handle (mkcfg Eddsa true false all_guards) env_all true
          (MNewView (Build_wsync (Some (Build_wqc (Some (Some (WMultiE 3 true))) 4 HKnown)) None None)) = Ok Dropped.
 Proof. vm_compute. repeat split; reflexivity. Qed.
+
+(* the genesis QC is a valid certificate only for view 0 and without anything that restores to a signature *)
+Example C10_genesis_qc_only_unsigned :
+  let nv q := MNewView (Build_wsync (Some q) None None) in
+  let h m := handle (mkcfg Ecdsa false false all_guards) env_all true m in
+  h (nv (Build_wqc None 0 HGenesis)) = Ok Passed /\
+  h (nv (Build_wqc (Some None) 0 HGenesis)) = Ok Passed /\
+  h (nv (Build_wqc (Some (Some (WBls false 0 false))) 0 HGenesis)) = Ok Passed /\   (* bytes that do not restore: nil *)
+  h (nv (Build_wqc (Some (Some (WMultiE 0 false))) 0 HGenesis)) = Ok Dropped /\
+  h (nv (Build_wqc (Some (Some (WMultiD 1 false))) 0 HGenesis)) = Ok Dropped /\
+  h (nv (Build_wqc (Some (Some (WBls true 0 true))) 0 HGenesis)) = Ok Dropped /\
+  h (nv (Build_wqc (Some (Some (WBls true 3 false))) 0 HGenesis)) = Ok Dropped /\
+  h (nv (Build_wqc None 7 HGenesis)) = Ok Dropped.
+Proof. vm_compute. repeat split; reflexivity. Qed.
